@@ -490,6 +490,23 @@ def run_toy(spec, log):
 
 
 def run_bins(spec, log):
+    """binning objects are built, used and dropped one after the other (a toy loop / a helper that builds its
+    binning locally): each must describe ITS data whatever lived at its address before"""
+    import gc
+
+    for rep in range(3):
+        sub = dict(spec)
+        sub["dseed"] = spec["dseed"] + 1000 * rep
+        if rep:
+            sub["n"] = [64, 100, 257, 1000, 4096][(spec["dseed"] + rep) % 5]
+        run_bins_once(sub, log, rep)
+        if log.failures:
+            return
+        gc.collect()
+    log.count("probe.consecutive_binning_objects")
+
+
+def run_bins_once(spec, log, rep=0):
     import numpy as np
 
     from tf_pwa.adaptive_bins import AdaptiveBound
@@ -529,7 +546,7 @@ def run_bins(spec, log):
     if not np.all(cnt == 1):
         log.fail("exactly-one-bin", "AdaptiveBound|exactly-one-bin|%s" % ("nested" if lay.startswith("nested") or lay == "mixed" else "flat"), "layout %s on %d events: %d events fall in no bin and %d in more than one" % (bins, n, int(np.sum(cnt == 0)), int(np.sum(cnt > 1))))
         return
-    if n >= 4 * nb and pops.max() - pops.min() > 1 + levels:
+    if n >= 4 * nb and pops.max() - pops.min() > max(1 + levels, 0.01 * n / nb):
         log.fail("near-equal", "AdaptiveBound|near-equal-populations", "layout %s on %d events: populations range from %d to %d" % (bins, n, pops.min(), pops.max()))
         return
     parts = ab.split_data(used)
